@@ -187,7 +187,29 @@ func HarnessC13VirtualOSOperations() {
 	for _, t := range layout {
 		mounts[t] = &Mount{Target: t, Source: &c13RecFS{mount: t, log: &log}}
 	}
-	vos := NewVirtualOS(context.Background(), WithMounts(mounts), WithCwd(cwd))
+	// the working directory is configured, or reached by Chdir: absolute, or
+	// component by component with relative names
+	var vos *VirtualOS
+	op := verifrt.Choose(16)
+	how := 0
+	if op == 0 || op == 9 || op == 12 {
+		// (path resolution is shared by all operations: three of them suffice)
+		how = verifrt.Choose(3)
+	}
+	switch how {
+	case 0:
+		vos = NewVirtualOS(context.Background(), WithMounts(mounts), WithCwd(cwd))
+	case 1:
+		vos = NewVirtualOS(context.Background(), WithMounts(mounts), WithCwd("/"))
+		vos.Chdir(cwd)
+	default:
+		vos = NewVirtualOS(context.Background(), WithMounts(mounts), WithCwd("/"))
+		for _, part := range strings.Split(strings.TrimPrefix(cwd, "/"), "/") {
+			if part != "" {
+				vos.Chdir(part)
+			}
+		}
+	}
 	maxN := 3
 	if verifrt.Thorough() {
 		maxN = 4
@@ -195,7 +217,6 @@ func HarnessC13VirtualOSOperations() {
 	p := verifrt.String(verifrt.Choose(maxN + 1))
 	fixed := []string{"/a/x", "/b/y", "/a/b/z", "x", "/ab/q", "/c"}
 	q := fixed[verifrt.Choose(len(fixed))]
-	op := verifrt.Choose(16)
 	var paths []string
 	method := ""
 	switch op {
@@ -271,6 +292,12 @@ func HarnessC13VirtualOSOperations() {
 		return
 	}
 	verifrt.Reach("served")
+	// a path with an owner is served (the recording sources never refuse)
+	// (a mount point written with a trailing separator does not serve the mount
+	// point's own name - a refusal, which no statement of the property forbids)
+	if !strings.HasSuffix(owners[0], "/") || owners[0] == "/" {
+		verifrt.Assert(len(log) > 0, "a-path-under-a-mount-is-served:"+method)
+	}
 	for _, c := range log {
 		verifrt.Assert(c.mount == owners[0], "served-by-the-longest-prefix-mount:"+method)
 		if c.method == method && len(c.paths) == len(paths) {
